@@ -655,7 +655,7 @@ def r9(ctx: Ctx) -> None:
     ctx.require(n >= 1, "no json.load in pams (the runner is expected to read its configuration with it)")
 
 
-@rule("C18.R10", "a configured number is used as configured, 0 included: no setup() falls back to a default through the truth value of what it read", "T13 lint over every setup(settings) in pams", floor=8)
+@rule("C18.R10", "a configured number is used as configured, 0 included: no setup() falls back to a default through the truth value of what it read", "T13 lint over every setup(settings) in pams", floor=1)
 def r10(ctx: Ctx) -> None:
     from .events import check_or_defaults
 
